@@ -188,8 +188,9 @@ def read_fits_spec(filename, ext=1, wave_col='WAVELENGTH', flux_col='FLUX',
     wave_col = wave_col.lower()
     flux_col = flux_col.lower()
 
+    fs = fits.open(filename)
+
     try:
-        fs = fits.open(filename)
         subhdu = fs[ext]
 
         # Need to fix table units
